@@ -213,8 +213,19 @@ def run(ctx):
         from .fc import substitute_defs as _sd0
         v = T.to_term(it.eval(_sd0(di.node, masks[0].value, {roles["val"], roles["w"], "self"}), env2))
         want = AND(op("all", T.NOT(op("isnull", P("val"))), P("axes")), CMP("gt", P("w"), 0))
+        per_value = AND(T.NOT(op("isnull", P("val"))), CMP("gt", P("w"), 0))
+        if T.equivalent(v, per_value) == T.Verdict.EQUAL:
+            want = per_value
         ctx.equiv("R13.3", "_data_interpolator[corner mask]", v, want, di.loc(masks[0]),
                   "a corner contributes only if its data are not NaN and its weight is positive", interp=it)
+        # granularity of "its data are not NaN": the property speaks of a missing *neighbour value*.  A mask reduced with all()/any()
+        # over the passive axes drops a whole grid node (every passive position) when one of its values is missing: for data of rank
+        # >= 2 with an isolated NaN the NaN-free positions are then not interpolated linearly, and a target on a grid node does not
+        # return the data that are there.
+        reduced = [t_ for t_ in T.subterms(v) if fname(t_) in ("all", "any") and P("axes") in t_.free_symbols]
+        ctx.expect(not reduced, "R13.3", "_data_interpolator[mask granularity]",
+                   "validity is decided per value, not for a whole grid node over all passive axes", di.loc(masks[0]),
+                   derived=T.show(v, 200), required="~isnan(val) & (w > 0) without a reduction over the passive axes")
     else:
         ctx.unsure("R13.3", "_data_interpolator[corner mask]", "mask assignment not found", di.loc())
     tw, tv = roles.get("aug_w"), roles.get("aug_v")
@@ -460,7 +471,7 @@ def run(ctx):
               lambda sub, mp: binding.name_agreement_rule(sub, "R13.6", CallGraph(mp), mp.all_functions), "flag bound to another parameter")
     ctx.require_count("R13.1", 3)
     ctx.require_count("R13.2", 14)
-    ctx.require_count("R13.3", 7)
+    ctx.require_count("R13.3", 8)
     ctx.require_count("R13.4", 6)
     ctx.require_count("R13.5", 14)
     ctx.require_count("R13.6", 10)
